@@ -1,0 +1,232 @@
+//go:build verif
+
+// Verification hook (build tag "verif"): fault jobs of the job server in
+// verif_serve.go. The same commands are assembled from the exported
+// constructors with a CmdUtils whose readers and output sink count what the
+// program consumed/produced and start failing at a chosen byte offset.
+
+package main
+
+import (
+	"errors"
+	"fmt"
+	"io"
+	"os"
+	"runtime/debug"
+
+	"github.com/aquilax/hranoprovod-cli/cmd/hranoprovod-cli/v3/internal/balance"
+	"github.com/aquilax/hranoprovod-cli/cmd/hranoprovod-cli/v3/internal/csv"
+	"github.com/aquilax/hranoprovod-cli/cmd/hranoprovod-cli/v3/internal/lint"
+	"github.com/aquilax/hranoprovod-cli/cmd/hranoprovod-cli/v3/internal/options"
+	"github.com/aquilax/hranoprovod-cli/cmd/hranoprovod-cli/v3/internal/print"
+	"github.com/aquilax/hranoprovod-cli/cmd/hranoprovod-cli/v3/internal/register"
+	"github.com/aquilax/hranoprovod-cli/cmd/hranoprovod-cli/v3/internal/report"
+	"github.com/aquilax/hranoprovod-cli/cmd/hranoprovod-cli/v3/internal/stats"
+	"github.com/aquilax/hranoprovod-cli/cmd/hranoprovod-cli/v3/internal/summary"
+	"github.com/aquilax/hranoprovod-cli/cmd/hranoprovod-cli/v3/internal/utils"
+	"github.com/urfave/cli/v2"
+)
+
+// verifSink accepts limit bytes (limit < 0: everything) and then fails every Write
+type verifSink struct {
+	limit    int
+	accepted int
+	errs     int
+	writes   int
+	buf      []byte
+}
+
+func (s *verifSink) Write(p []byte) (int, error) {
+	s.writes++
+	room := s.limit - s.accepted
+	if s.limit < 0 || len(p) <= room {
+		s.accepted += len(p)
+		s.buf = append(s.buf, p...)
+		return len(p), nil
+	}
+	if room < 0 {
+		room = 0
+	}
+	s.accepted += room
+	s.buf = append(s.buf, p[:room]...)
+	s.errs++
+	return room, errors.New("verif: no space left on device")
+}
+
+// verifReader delivers limit bytes (limit < 0: everything) in reads of at most
+// chunk bytes (chunk <= 0: as asked) and then fails every Read. With partial
+// set the failing Read returns the last bytes together with the error.
+type verifReader struct {
+	r         io.Reader
+	name      string
+	limit     int
+	chunk     int
+	partial   bool
+	delivered int
+	reads     int
+	errd      bool
+	eof       bool
+}
+
+func (f *verifReader) Read(p []byte) (int, error) {
+	f.reads++
+	if f.chunk > 0 && len(p) > f.chunk {
+		p = p[:f.chunk]
+	}
+	failNow := false
+	if f.limit >= 0 {
+		room := f.limit - f.delivered
+		if room <= 0 {
+			f.errd = true
+			return 0, errors.New("verif: input/output error")
+		}
+		if len(p) >= room {
+			p = p[:room]
+			failNow = f.partial
+		}
+	}
+	n, err := io.ReadFull(f.r, p)
+	if err == io.ErrUnexpectedEOF {
+		err = io.EOF
+	}
+	if n > 0 && err == io.EOF {
+		err = nil
+	}
+	f.delivered += n
+	if err == io.EOF {
+		f.eof = true
+		return n, err
+	}
+	if err == nil && failNow && n == len(p) {
+		f.errd = true
+		return n, errors.New("verif: input/output error")
+	}
+	return n, err
+}
+
+type verifReadFault struct {
+	Idx     int  `json:"idx"`
+	Limit   int  `json:"limit"`
+	Chunk   int  `json:"chunk,omitempty"`
+	Partial bool `json:"partial,omitempty"`
+}
+
+type verifFaultJob struct {
+	Args      []string         `json:"args"`
+	SinkLimit int              `json:"sink_limit"`
+	Reads     []verifReadFault `json:"reads,omitempty"`
+}
+
+type verifReaderState struct {
+	Name      string `json:"name"`
+	Delivered int    `json:"delivered"`
+	Reads     int    `json:"reads"`
+	Errd      bool   `json:"errd"`
+	EOF       bool   `json:"eof"`
+}
+
+type verifFaultRes struct {
+	Out      string             `json:"out"`
+	Err      string             `json:"err,omitempty"`
+	Exit     int                `json:"exit"`
+	Panic    string             `json:"panic,omitempty"`
+	Accepted int                `json:"accepted"`
+	SinkErrs int                `json:"sink_errs"`
+	Writes   int                `json:"writes"`
+	Readers  []verifReaderState `json:"readers,omitempty"`
+}
+
+func verifRunFault(j verifFaultJob) (res verifFaultRes) {
+	sk := &verifSink{limit: j.SinkLimit}
+	var frs []*verifReader
+	cu := utils.CmdUtils{
+		WithFileReaders: func(fileNames []string, cb func([]io.Reader) error) error {
+			rs := make([]io.Reader, len(fileNames))
+			for i, fn := range fileNames {
+				f, err := os.Open(fn)
+				if err != nil {
+					return err
+				}
+				defer f.Close()
+				fr := &verifReader{r: f, name: fn, limit: -1}
+				for _, rf := range j.Reads {
+					if rf.Idx == i {
+						fr.limit, fr.chunk, fr.partial = rf.Limit, rf.Chunk, rf.Partial
+					}
+				}
+				frs = append(frs, fr)
+				rs[i] = fr
+			}
+			return cb(rs)
+		},
+		WithOptions: func(c *cli.Context, cb func(*options.Options) error) error {
+			o := options.New()
+			if err := o.Load(c, true); err != nil {
+				return err
+			}
+			o.ReporterConfig.Output = sk
+			return cb(o)
+		},
+	}
+	a := GetApp()
+	a.Writer = io.Discard
+	a.ErrWriter = io.Discard
+	// lint's command constructor is not exported: same action as lint.Command()
+	// around the exported lint.Lint
+	lintCmd := lint.Command()
+	lintCmd.Action = func(c *cli.Context) error {
+		return cu.WithOptions(c, func(o *options.Options) error {
+			return cu.WithFileReaders([]string{c.Args().First()}, func(streams []io.Reader) error {
+				return lint.Lint(streams[0], lint.LintConfig{
+					Silent:         c.IsSet("silent"),
+					ParserConfig:   o.ParserConfig,
+					ReporterConfig: o.ReporterConfig,
+				})
+			})
+		})
+	}
+	a.Commands = []*cli.Command{
+		register.NewRegisterCommand(cu, register.Register),
+		balance.NewBalanceCommand(cu, balance.Balance),
+		lintCmd,
+		report.NewReportCommand(cu),
+		csv.NewCSVCommand(cu),
+		stats.NewStatsCommand(cu, stats.Stats),
+		summary.NewSummaryCommand(cu, summary.Summary),
+		print.NewPrintCommand(cu, print.Print),
+	}
+	realOut, realErr, realErrWriter := os.Stdout, os.Stderr, cli.ErrWriter
+	if null, err := os.OpenFile(os.DevNull, os.O_WRONLY, 0); err == nil {
+		os.Stdout, os.Stderr = null, null
+		defer null.Close()
+	}
+	cli.ErrWriter = io.Discard
+	var runErr error
+	func() {
+		defer func() {
+			if p := recover(); p != nil {
+				if ep, ok := p.(verifExit); ok {
+					res.Exit = ep.code
+					return
+				}
+				res.Panic = fmt.Sprintf("%v\n%s", p, debug.Stack())
+			}
+		}()
+		runErr = a.Run(append([]string{"hranoprovod-cli"}, j.Args...))
+	}()
+	os.Stdout, os.Stderr, cli.ErrWriter = realOut, realErr, realErrWriter
+	if runErr != nil {
+		res.Err = runErr.Error()
+		if res.Exit == 0 {
+			res.Exit = 1
+		}
+	}
+	res.Out = string(sk.buf)
+	res.Accepted = sk.accepted
+	res.SinkErrs = sk.errs
+	res.Writes = sk.writes
+	for _, fr := range frs {
+		res.Readers = append(res.Readers, verifReaderState{fr.name, fr.delivered, fr.reads, fr.errd, fr.eof})
+	}
+	return res
+}
